@@ -20,7 +20,10 @@ class Store:
         self.lock = threading.Lock()
         self.hook = None  # callable(event_tuple) called BEFORE the operation takes effect
         self.recording = True
+        self.mtimes = {}  # path -> POSIX time of the last put (what modified() / created() report)
         self.fail_reads = 0  # the next n reads raise OSError(EIO) (transient I/O error)
+        self.fail_path = None  # ... restricted to paths containing this text (None: any path)
+        self.fail_skip = 0  # ... after letting this many matching reads through
         # products whose files are handed out as ONE shared file object per path (what fsspec's
         # memory filesystem does): open() rewinds it, close() leaves it open
         self.shared_products = set()
@@ -28,15 +31,21 @@ class Store:
 
     # --- content -------------------------------------------------------------------
     def put_product(self, name, files):
+        import time
+
         for fname, data in files.items():
             self.files[f"{name}/{fname}"] = bytes(data)
+            self.mtimes[f"{name}/{fname}"] = time.time()
 
     def drop_product(self, name):
         for key in [k for k in self.files if k.startswith(f"{name}/")]:
             del self.files[key]
 
     def put(self, path, data):
+        import time
+
         self.files[path.strip("/")] = bytes(data)
+        self.mtimes[path.strip("/")] = time.time()
 
     def remove(self, path):
         self.files.pop(path.strip("/"), None)
@@ -113,9 +122,12 @@ class TracedFile(io.RawIOBase):
         return chunk
 
     def _read_now(self, size):
-        if self.store.fail_reads > 0:
-            self.store.fail_reads -= 1
-            raise OSError(5, "injected transient read error", self.path)
+        if self.store.fail_reads > 0 and (self.store.fail_path is None or self.store.fail_path in self.path):
+            if self.store.fail_skip > 0:
+                self.store.fail_skip -= 1
+            else:
+                self.store.fail_reads -= 1
+                raise OSError(5, "injected transient read error", self.path)
         pos = self.pos
         chunk = self.data[pos: pos + size]
         self.pos = pos + len(chunk)
@@ -190,11 +202,21 @@ class VTraceFileSystem(AbstractFileSystem):
     def info(self, path, **kwargs):
         key = self._key(path)
         if key in self.store.files:
-            return {"name": key, "size": len(self.store.files[key]), "type": "file"}
+            return {"name": key, "size": len(self.store.files[key]), "type": "file", "mtime": self.store.mtimes.get(key, 0.0),
+                    "created": self.store.mtimes.get(key, 0.0)}
         prefix = key + "/" if key else ""
         if any(k.startswith(prefix) for k in self.store.files):
             return {"name": key, "size": 0, "type": "directory"}
         raise FileNotFoundError(path)
+
+    def modified(self, path):
+        """time zone aware UTC, as fsspec's local and memory filesystems report it"""
+        import datetime
+
+        return datetime.datetime.fromtimestamp(self.info(path)["mtime"], tz=datetime.timezone.utc)
+
+    def created(self, path):
+        return self.modified(path)
 
     def exists(self, path, **kwargs):
         try:
@@ -208,6 +230,12 @@ class VTraceFileSystem(AbstractFileSystem):
         self.store.log("cat_file", key, start, end)
         if key not in self.store.files:
             raise FileNotFoundError(path)
+        if self.store.fail_reads > 0 and self.store.fail_path is not None and self.store.fail_path in key:
+            if self.store.fail_skip > 0:
+                self.store.fail_skip -= 1
+            else:
+                self.store.fail_reads -= 1
+                raise OSError(5, "injected transient read error", key)
         return self.store.files[key][start:end]
 
     def pipe_file(self, path, value, **kwargs):
